@@ -363,3 +363,176 @@ Proof.
   - intros x y z _ _ _ _ _ _. unfold s, mk_asg.
     destruct (Nat.ltb_spec (posn x) (posn y)), (Nat.ltb_spec (posn y) (posn z)), (Nat.ltb_spec (posn x) (posn z)); lia.
 Qed.
+
+(* ---------------------------------------------------------------------------------------------- *)
+(* 6. the decoding loop  axis[int(pos_a.x) - 1] = alternatives[a]                                   *)
+
+Definition posn_of (s : asg) (a : nat) : nat := (Z.to_nat (s (Pos a)) - 1)%nat.
+
+Lemma decode_axis_spec alts s :
+  pos_range s (length alts) ->
+  (forall x y, (x < length alts)%nat -> (y < length alts)%nat -> s (Pos x) = s (Pos y) -> x = y) ->
+  length (decode_axis alts s) = length alts /\
+  forall a, (a < length alts)%nat ->
+    (posn_of s a < length alts)%nat /\ nth (posn_of s a) (decode_axis alts s) 0%N = nth a alts 0%N.
+Proof.
+  intros Hr Hinj. unfold decode_axis. split.
+  - rewrite (writes_length N (posn_of s) (fun a => nth a alts 0%N)). apply repeat_length.
+  - intros a Ha. assert (Hlt : (posn_of s a < length alts)%nat).
+    { unfold posn_of. specialize (Hr a Ha). lia. }
+    split; [assumption|].
+    apply (writes_hit N (posn_of s) (fun a => nth a alts 0%N) 0%N (seq 0 (length alts))).
+    + apply seq_NoDup.
+    + intros x y Hx Hy E. apply in_seq in Hx, Hy. apply Hinj; try lia.
+      unfold posn_of in E. pose proof (Hr x ltac:(lia)). pose proof (Hr y ltac:(lia)). lia.
+    + intros x Hx. apply in_seq in Hx. rewrite repeat_length. unfold posn_of. specialize (Hr x ltac:(lia)). lia.
+    + apply in_seq. lia.
+Qed.
+
+(* ---------------------------------------------------------------------------------------------- *)
+(* 7. CORE 2: the consecutive-ones constraints of a row, on an axis with a placement function      *)
+
+Lemma filter_true {T} (l : list T) : filter (fun _ => true) l = l.
+Proof. induction l; simpl; congruence. Qed.
+Lemma filter_false {T} (l : list T) : filter (fun _ => false) l = [].
+Proof. induction l; simpl; congruence. Qed.
+
+Section Placement.
+Variables (alts axis : list N) (posn : nat -> nat).
+Let m := length alts.
+Let alt (a : nat) : N := nth a alts 0%N.
+Hypothesis Hnd : NoDup alts.
+Hypothesis Hperm : Permutation alts axis.
+Hypothesis Hpos : forall a, (a < m)%nat -> (posn a < m)%nat /\ nth (posn a) axis 0%N = alt a.
+
+Lemma pl_axis_nodup : NoDup axis.
+Proof. eapply Permutation_NoDup; eauto. Qed.
+Lemma pl_axis_length : length axis = m.
+Proof. symmetry. now apply Permutation_length. Qed.
+
+Lemma pl_alt_inj a b : (a < m)%nat -> (b < m)%nat -> alt a = alt b -> a = b.
+Proof. intros Ha Hb E. apply (proj1 (NoDup_nth alts 0%N) Hnd); auto. Qed.
+
+Lemma pl_posn_inj a b : (a < m)%nat -> (b < m)%nat -> posn a = posn b -> a = b.
+Proof.
+  intros Ha Hb E. apply pl_alt_inj; auto. destruct (Hpos a Ha) as [_ <-], (Hpos b Hb) as [_ <-]. now rewrite E.
+Qed.
+
+Lemma pl_in_axis x : In x axis -> exists a, (a < m)%nat /\ alt a = x.
+Proof.
+  intros Hx. eapply Permutation_in in Hx; [|apply Permutation_sym; exact Hperm].
+  apply (In_nth _ _ 0%N) in Hx. destruct Hx as (a & Ha & E). exists a. auto.
+Qed.
+
+Lemma pl_alt_in_axis a : (a < m)%nat -> In (alt a) axis.
+Proof. intros Ha. eapply Permutation_in; [exact Hperm|]. apply nth_In. exact Ha. Qed.
+
+Lemma pl_sub3 a b c : (a < m)%nat -> (b < m)%nat -> (c < m)%nat ->
+  (sub3 (alt a) (alt b) (alt c) axis <-> (posn a < posn b < posn c)%nat).
+Proof.
+  intros Ha Hb Hc. destruct (Hpos a Ha) as [La Ea], (Hpos b Hb) as [Lb Eb], (Hpos c Hc) as [Lc Ec]. split.
+  - intros H. apply (sub3_nth_inv axis 0%N) in H. destruct H as (i & j & k & Hijk & Hk & Ei & Ej & Ek).
+    rewrite pl_axis_length in Hk.
+    assert (Hi : i = posn a).
+    { apply (proj1 (NoDup_nth axis 0%N) pl_axis_nodup); rewrite ?pl_axis_length; first [lia|congruence]. }
+    assert (Hj : j = posn b).
+    { apply (proj1 (NoDup_nth axis 0%N) pl_axis_nodup); rewrite ?pl_axis_length; first [lia|congruence]. }
+    assert (Hk' : k = posn c).
+    { apply (proj1 (NoDup_nth axis 0%N) pl_axis_nodup); rewrite ?pl_axis_length; first [lia|congruence]. }
+    lia.
+  - intros H. rewrite <- Ea, <- Eb, <- Ec. apply sub3_of_nth; [assumption|]. rewrite pl_axis_length. lia.
+Qed.
+
+(* an assignment whose LeftOf variables describe the placement *)
+Variable s : asg.
+Hypothesis Hbin : leftof_binary s m.
+Hypothesis Hlf : forall x y, (x < m)%nat -> (y < m)%nat -> x <> y -> (s (LeftOf x y) = 1 <-> (posn x < posn y)%nat).
+
+(* relaxation terms: worth 0 when the three columns are kept, at most -2 (one unit) otherwise *)
+Variable relax : nat -> nat -> nat -> list (Z * var).
+Variable keep : N -> bool.
+Let keep3 i j k := keep (alt i) && keep (alt j) && keep (alt k).
+Hypothesis Hrel : forall i j k, (i < m)%nat -> (j < m)%nat -> (k < m)%nat ->
+  if keep3 i j k then eval s (relax i j k) = 0 else eval s (relax i j k) <= -2.
+
+Lemma pl_cons1 i j k : (i < m)%nat -> (j < m)%nat -> (k < m)%nat -> i <> k -> k <> j ->
+  (holds s (cons1 relax i j k) <-> (keep3 i j k = false \/ ~ (posn i < posn k < posn j)%nat)).
+Proof.
+  intros Hi Hj Hk Hik Hkj. rewrite holds_cons1. specialize (Hrel i j k Hi Hj Hk).
+  pose proof (Hlf i k Hi Hk Hik) as L1. pose proof (Hlf k j Hk Hj Hkj) as L2.
+  destruct (Hbin i k Hi Hk) as [B1|B1], (Hbin k j Hk Hj) as [B2|B2]; destruct (keep3 i j k);
+    rewrite B1, B2 in *; split; intros H; try lia; try (right; lia); try (left; reflexivity);
+    try (destruct H as [H|H]; [discriminate|]; exfalso; apply H; split; [apply L1|apply L2]; reflexivity).
+Qed.
+
+Variable S : list N.
+Let row := map (fun x => memN x S) alts.
+
+Lemma pl_row_nth a : (a < m)%nat -> nth a row false = memN (alt a) S.
+Proof.
+  intros Ha. unfold row. rewrite (nth_indep _ false (memN 0%N S)) by (rewrite map_length; exact Ha).
+  apply (map_nth (fun x => memN x S)).
+Qed.
+
+Lemma pl_row_cstrs_sem :
+  (forall c, In c (row_cstrs relax row) -> holds s c) <->
+  (forall i j k, (i < j)%nat -> (j < m)%nat -> (k < m)%nat ->
+     memN (alt i) S = true -> memN (alt j) S = true -> memN (alt k) S = false ->
+     holds s (cons1 relax i j k) /\ holds s (cons1 relax j i k)).
+Proof.
+  assert (Lrow : length row = m) by (unfold row; apply map_length).
+  unfold row_cstrs, one_pairs, zero_cols. rewrite Lrow. split.
+  - intros H i j k Hij Hj Hk Mi Mj Mk.
+    assert (Hin : forall c, In c [cons1 relax i j k; cons1 relax j i k] -> holds s c).
+    { intros c Hc. apply H. apply in_flat_map. exists (i, j). split.
+      - apply filter_In. split; [apply combos2_In; lia|]. cbn [fst snd].
+        rewrite !pl_row_nth by lia. now rewrite Mi, Mj.
+      - apply in_flat_map. exists k. split; [|exact Hc]. apply filter_In. split; [apply in_seq; lia|].
+        rewrite pl_row_nth by lia. now rewrite Mk. }
+    split; apply Hin; simpl; auto.
+  - intros H c Hc. apply in_flat_map in Hc. destruct Hc as ([i j] & Hij & Hc).
+    apply filter_In in Hij. destruct Hij as [Hij Mij]. apply combos2_In in Hij. cbn [fst snd] in *.
+    apply in_flat_map in Hc. destruct Hc as (k & Hk & Hc). apply filter_In in Hk. destruct Hk as [Hk Mk].
+    apply in_seq in Hk. rewrite !pl_row_nth in * by lia. apply andb_true_iff in Mij. destruct Mij as [Mi Mj].
+    apply negb_true_iff in Mk. destruct (H i j k) as [H1 H2]; try lia; auto.
+    simpl in Hc. destruct Hc as [<-|[<-|[]]]; assumption.
+Qed.
+
+Theorem row_core :
+  (forall c, In c (row_cstrs relax row) -> holds s c) <->
+  ones_consec (map (fun x => memN x S) (filter keep axis)).
+Proof.
+  rewrite pl_row_cstrs_sem, ones_consec_iff_no_tft. split.
+  - intros H Hs. apply sub3_map_inv in Hs. destruct Hs as (x & y & z & Hs & Gx & Gy & Gz).
+    apply sub3_filter in Hs. destruct Hs as (Hs & Kx & Ky & Kz).
+    assert (Hx : In x axis) by (destruct Hs as (l1 & l2 & l3 & l4 & ->); apply in_or_app; right; now left).
+    assert (Hy : In y axis).
+    { destruct Hs as (l1 & l2 & l3 & l4 & ->). apply in_or_app. right. right. apply in_or_app. right. now left. }
+    assert (Hz : In z axis).
+    { destruct Hs as (l1 & l2 & l3 & l4 & ->). apply in_or_app. right. right. apply in_or_app. right. right.
+      apply in_or_app. right. now left. }
+    apply pl_in_axis in Hx, Hy, Hz. destruct Hx as (a & Ha & <-), Hy as (b & Hb & <-), Hz as (c & Hc & <-).
+    apply pl_sub3 in Hs; auto.
+    assert (Hab : a <> b) by (intros ->; lia). assert (Hbc : b <> c) by (intros ->; lia).
+    assert (Hac : a <> c) by (intros ->; lia).
+    assert (K3 : keep3 a c b = true) by (unfold keep3; now rewrite Kx, Ky, Kz).
+    assert (K3' : keep3 c a b = true) by (unfold keep3; now rewrite Kx, Ky, Kz).
+    destruct (lt_dec a c) as [Lac|Lac].
+    + destruct (H a c b) as [H1 _]; auto. apply pl_cons1 in H1; auto.
+      destruct H1 as [H1|H1]; [congruence|apply H1; lia].
+    + destruct (H c a b) as [_ H2]; auto; [lia|]. apply pl_cons1 in H2; auto.
+      destruct H2 as [H2|H2]; [congruence|apply H2; lia].
+  - intros H i j k Hij Hj Hk Mi Mj Mk.
+    assert (Hik : i <> k) by (intros ->; congruence). assert (Hkj : k <> j) by (intros ->; congruence).
+    assert (G : forall a c, (a < m)%nat -> (c < m)%nat -> memN (alt a) S = true -> memN (alt c) S = true ->
+                keep3 a c k = true -> ~ (posn a < posn k < posn c)%nat).
+    { intros a c Ha Hc Ma Mc K3 Hp. apply H. unfold keep3 in K3. apply andb_true_iff in K3.
+      destruct K3 as [K3 Kk]. apply andb_true_iff in K3. destruct K3 as [Ka Kc].
+      apply (pl_sub3 a k c Ha Hk Hc) in Hp.
+      assert (Hf : sub3 (alt a) (alt k) (alt c) (filter keep axis)) by (apply sub3_filter; auto).
+      apply (sub3_map (fun x => memN x S)) in Hf. now rewrite Ma, Mk, Mc in Hf. }
+    split; apply pl_cons1; auto; try lia.
+    + destruct (keep3 i j k) eqn:K3; [right|now left]. apply G; auto; lia.
+    + destruct (keep3 j i k) eqn:K3; [right|now left]. apply G; auto; lia.
+Qed.
+End Placement.
